@@ -27,13 +27,14 @@ ASSUMPTIONS = [
     "oracle 2 (consequences, on kingdon's own outputs): ip+sp == lc+rc, cp+acp == gp, and a op b == sum over operand "
     "grades (r,s) of the target-grade part of a.grade(r)*b.grade(s) computed with kingdon's gp and grade()",
     "generic coefficients from kv.ring.Q decide each pattern for all coefficient values",
-    "d<=4 quick, d<=5 thorough; all patterns for d<=1 (quick) / d<=2 (thorough) enumerated",
+    "d<=8 sampled (d>=6: <=6 stored blades; d=7,8 use the lazily filled sign table); all patterns for d<=1 (quick) / d<=2 "
+    "(thorough) enumerated",
 ]
 EXHAUSTIVE_SUBSPACES = {
     "quick": ["7 operators x all ordered key-tuple pairs x all signatures, d<=1"],
     "thorough": ["7 operators x all ordered key-tuple pairs x all signatures, d<=2"],
 }
-REQUIRED_LABELS = {"order:noncanonical": 0.05, "mode:generic": 0.2, "rel:derived": 0.15}
+REQUIRED_LABELS = {"order:noncanonical": 0.05, "mode:generic": 0.2, "rel:derived": 0.15, "lazy:d>=7": 0.03}
 
 
 def budget(tier):
@@ -43,10 +44,12 @@ def budget(tier):
 
 @st.composite
 def _cases(draw, dmax):
-    cfg = draw(S.configs(0, dmax, custom=0.2, named=True, dweights=[0, 1, 2, 2, 3, 3, 3, 4, 4, 4] + [5, 5] * (dmax >= 5)))
+    cfg = draw(S.configs(0, 8, custom=0.2, named=True, dweights=[0, 1, 2, 2, 3, 3, 3, 4, 4, 4, 6, 7, 8] + [5, 5] * (dmax >= 5)))
     d = len(cfg["sig"])
+    if cfg.get("basis") and d > 5 and not cfg.get("named"):
+        cfg["basis"] = None
     n = 2 ** d
-    cap = None if d <= 4 else 12
+    cap = None if d <= 4 else (12 if d == 5 else 6)
     a = draw(S.operand(d, max_len=cap))
     rel = draw(st.sampled_from(["indep", "indep", "sub", "super", "compl", "xor", "same"]))
     if rel == "indep" or not a["keys"]:
@@ -160,7 +163,7 @@ def evaluate(case):
     noncanon = (not S.is_canonical(ka)) or (not S.is_canonical(kb))
     labels = [f"op:{op}", f"d:{ref.d}", f"mode:{case['mode']}", "order:noncanonical" if noncanon else "order:canonical",
               "rel:derived" if case["rel"] not in ("indep", "enum") else f"rel:{case['rel']}",
-              "basis:custom" if cfg.get("basis") else "basis:default"]
+              "basis:custom" if cfg.get("basis") else "basis:default"] + (["lazy:d>=7"] if ref.d >= 7 else [])
     key = [cfg["sig"], cfg.get("start"), cfg.get("basis"), op, ka, kb, case["cse"], case["mode"]]
     return Info(nontrivial, labels, key, counters, sample={"result_keys": sorted(got)} if nontrivial else None)
 
